@@ -255,25 +255,74 @@ pub fn run_one(scn: Arc<dyn Scenario>, tier: Tier, env_seed: u64, tape: TapeInpu
             let _ = tx.send(out);
         })
         .expect("spawn run thread");
-    match rx.recv_timeout(Duration::from_secs(60)) {
-        Ok(out) => {
-            let _ = handle.join();
-            out
+    // Watchdog. A run normally takes milliseconds. Two ways of not ending:
+    // (a) the run thread burns CPU without ever yielding to the simulator
+    //     (a loop in library code with no await in it): decided by the
+    //     thread's own CPU clock, so that a loaded machine cannot trip it -
+    //     a livelock violation for scenarios that promise termination;
+    // (b) no progress and no CPU use either (starved or blocked for real):
+    //     a harness error after a generous wall-clock limit.
+    use std::os::unix::thread::JoinHandleExt;
+    let mut cpu_clock: libc::clockid_t = 0;
+    let have_cpu_clock = unsafe { libc::pthread_getcpuclockid(handle.as_pthread_t(), &mut cpu_clock) } == 0;
+    let cpu_ns = |clk: libc::clockid_t| -> u64 {
+        let mut ts = libc::timespec { tv_sec: 0, tv_nsec: 0 };
+        unsafe {
+            libc::syscall(libc::SYS_clock_gettime, clk, &mut ts as *mut libc::timespec);
         }
-        Err(_) => RunOutcome {
-            violation: None,
-            known: Vec::new(),
-            harness_error: Some(format!("watchdog: run did not finish in 60 s real time (scenario {}, env_seed {})", scn.name(), env_seed)),
-            events: 0,
-            fingerprint: 0,
-            vtime_ns: 0,
-            stats: BTreeMap::new(),
-            draws: Vec::new(),
-            log: Vec::new(),
-            over_cap: false,
-        },
+        ts.tv_sec as u64 * 1_000_000_000 + ts.tv_nsec as u64
+    };
+    let t_start = real_now_ns();
+    let dead = |harness_error: Option<String>, violation: Option<Violation>| RunOutcome {
+        violation,
+        known: Vec::new(),
+        harness_error,
+        events: 0,
+        fingerprint: 0,
+        vtime_ns: 0,
+        stats: BTreeMap::new(),
+        draws: Vec::new(),
+        log: Vec::new(),
+        over_cap: false,
+    };
+    loop {
+        match rx.recv_timeout(Duration::from_millis(500)) {
+            Ok(out) => {
+                let _ = handle.join();
+                return out;
+            }
+            Err(std::sync::mpsc::RecvTimeoutError::Disconnected) => {
+                let _ = handle.join();
+                return dead(Some(format!("run thread ended without a result (scenario {}, env_seed {})", scn.name(), env_seed)), None);
+            }
+            Err(std::sync::mpsc::RecvTimeoutError::Timeout) => {}
+        }
+        let burnt = if have_cpu_clock { cpu_ns(cpu_clock) } else { 0 };
+        if burnt > BUSY_LIMIT_S * 1_000_000_000 {
+            // (The thread cannot be stopped; it is left behind.)
+            if scn.livelock_is_violation() {
+                return dead(
+                    None,
+                    Some(Violation {
+                        property: scn.property().to_string(),
+                        oracle: "livelock".into(),
+                        signature: "busy-loop-without-yielding".into(),
+                        detail: format!("the run thread used {} s of CPU time without finishing or yielding to the simulator (a loop in library code that never awaits)", burnt / 1_000_000_000),
+                    }),
+                );
+            }
+            return dead(Some(format!("watchdog: run thread busy for {} s of CPU time (scenario {}, env_seed {})", burnt / 1_000_000_000, scn.name(), env_seed)), None);
+        }
+        if real_now_ns() - t_start > STALL_LIMIT_S * 1_000_000_000 {
+            return dead(Some(format!("watchdog: run did not finish in {} s real time, {} s of them on the CPU (scenario {}, env_seed {})", STALL_LIMIT_S, burnt / 1_000_000_000, scn.name(), env_seed)), None);
+        }
     }
 }
+
+/// CPU seconds a single run may burn before it counts as a busy loop.
+const BUSY_LIMIT_S: u64 = 25;
+/// Wall-clock seconds a run may take on a machine that does not schedule it.
+const STALL_LIMIT_S: u64 = 300;
 
 fn run_on_this_thread(scn: Arc<dyn Scenario>, tier: Tier, env_seed: u64, tape: TapeInput, keep_log: bool) -> RunOutcome {
     IS_SIM_THREAD.with(|c| c.set(true));
@@ -532,6 +581,10 @@ pub struct ReplayFile {
     pub trace: Vec<String>,
     pub shrink_runs: u64,
     pub original_tape_len: usize,
+    /// The run never ended (a busy loop): there is no recorded tape, the
+    /// replay generates the choices from `env_seed` again.
+    #[serde(default)]
+    pub from_seed: bool,
 }
 
 fn tape_vals(draws: &[(&'static str, u64, u64)]) -> Vec<u64> {
@@ -651,6 +704,35 @@ pub fn shrink(scn: Arc<dyn Scenario>, tier: Tier, env_seed: u64, start: Vec<u64>
 
 /// Minimise, persist and verify a violation. Returns the replay path.
 pub fn report_violation(scn: Arc<dyn Scenario>, tier: Tier, run_index: u64, run_seed_v: u64, v: &Violation, replay_dir: &str) -> Result<String, String> {
+    std::fs::create_dir_all(replay_dir).map_err(|e| e.to_string())?;
+    let mut h = Fnv::default();
+    h.write(v.class().as_bytes());
+    let path = format!("{}/{}-{}-{:08x}.json", replay_dir, scn.property(), scn.name(), (h.0 ^ run_seed_v) as u32);
+    if v.oracle == "livelock" && v.signature == "busy-loop-without-yielding" {
+        // The run never ends, so there is no tape to read back or to
+        // minimise: confirm once from the seed and record the seed.
+        let again = run_one(scn.clone(), tier, run_seed_v, TapeInput::Gen(run_seed_v), false);
+        match again.violation {
+            Some(v2) if v2.class() == v.class() => {}
+            other => return Err(format!("busy loop of run {} (seed {}) did not reproduce from its seed: {:?}", run_index, run_seed_v, other.map(|v| v.class()))),
+        }
+        let rf = ReplayFile {
+            property: scn.property().to_string(),
+            scenario: scn.name().to_string(),
+            tier,
+            original_run_seed: run_seed_v,
+            env_seed: run_seed_v,
+            violation: v.clone(),
+            fingerprint: 0,
+            tape: Vec::new(),
+            trace: vec!["(the run never ended: no trace; replay regenerates the choices from env_seed)".to_string()],
+            shrink_runs: 0,
+            original_tape_len: 0,
+            from_seed: true,
+        };
+        std::fs::write(&path, serde_json::to_string_pretty(&rf).unwrap()).map_err(|e| e.to_string())?;
+        return Ok(path);
+    }
     // Re-run the original from its seed to get the tape.
     let orig = run_one(scn.clone(), tier, run_seed_v, TapeInput::Gen(run_seed_v), false);
     let ov = orig.violation.clone().ok_or_else(|| format!("violation of run {} (seed {}) did not reproduce from its seed: nondeterminism in the harness", run_index, run_seed_v))?;
@@ -659,8 +741,13 @@ pub fn report_violation(scn: Arc<dyn Scenario>, tier: Tier, run_index: u64, run_
     }
     let tape0 = tape_vals(&orig.draws);
     let (min_tape, used) = shrink(scn.clone(), tier, run_seed_v, tape0.clone(), &v.class(), 300);
-    let fin = run_one(scn.clone(), tier, run_seed_v, TapeInput::Replay(min_tape.clone()), true);
-    let fv = fin.violation.clone().ok_or("minimised tape did not reproduce")?;
+    let mut fin = run_one(scn.clone(), tier, run_seed_v, TapeInput::Replay(min_tape.clone()), true);
+    if fin.violation.as_ref().map(|f| f.class()) != Some(v.class()) {
+        // The minimised tape does not hold up (the failing code may itself
+        // behave differently from run to run): fall back to the full one.
+        fin = run_one(scn.clone(), tier, run_seed_v, TapeInput::Replay(tape0.clone()), true);
+    }
+    let fv = fin.violation.clone().ok_or("neither the minimised nor the full tape reproduced the violation")?;
     let rf = ReplayFile {
         property: scn.property().to_string(),
         scenario: scn.name().to_string(),
@@ -673,11 +760,8 @@ pub fn report_violation(scn: Arc<dyn Scenario>, tier: Tier, run_index: u64, run_
         trace: fin.log.clone(),
         shrink_runs: used,
         original_tape_len: tape0.len(),
+        from_seed: false,
     };
-    std::fs::create_dir_all(replay_dir).map_err(|e| e.to_string())?;
-    let mut h = Fnv::default();
-    h.write(fv.class().as_bytes());
-    let path = format!("{}/{}-{}-{:08x}.json", replay_dir, scn.property(), scn.name(), (h.0 ^ run_seed_v) as u32);
     std::fs::write(&path, serde_json::to_string_pretty(&rf).unwrap()).map_err(|e| e.to_string())?;
     // Verify: replay twice, same class and fingerprint.
     for _ in 0..2 {
@@ -698,7 +782,7 @@ pub fn load_replay(path: &str) -> Result<ReplayFile, String> {
 pub fn replay_file(scn: Arc<dyn Scenario>, path: &str) -> Result<(Option<Violation>, u64, Vec<String>), String> {
     let rf = load_replay(path)?;
     let vals: Vec<u64> = rf.tape.iter().map(|d| d.v).collect();
-    let out = run_one(scn, rf.tier, rf.env_seed, TapeInput::Replay(vals), true);
+    let out = run_one(scn, rf.tier, rf.env_seed, if rf.from_seed { TapeInput::Gen(rf.env_seed) } else { TapeInput::Replay(vals) }, true);
     if let Some(e) = out.harness_error {
         return Err(e);
     }
